@@ -4,6 +4,7 @@ import (
 	"errors"
 	"fmt"
 	"sort"
+	"strings"
 
 	"github.com/grafana/cog/internal/orderedmap"
 )
@@ -47,6 +48,44 @@ func (schemas Schemas) ResolveToType(def Type) Type {
 	}
 
 	return schemas.ResolveToType(resolved.Type)
+}
+
+// AliasCycle returns the first chain of objects that are plain references to
+// each other and lead back to their start ("pkg.A -> pkg.B -> pkg.A"), or an
+// empty string if there is none. Such objects have no type to resolve to.
+func (schemas Schemas) AliasCycle() string {
+	for _, schema := range schemas {
+		cycle := ""
+		schema.Objects.Iterate(func(_ string, object Object) {
+			if cycle != "" || !object.Type.IsRef() {
+				return
+			}
+
+			chain := []string{object.SelfRef.String()}
+			seen := map[string]struct{}{object.SelfRef.String(): {}}
+			def := object.Type
+			for def.IsRef() {
+				ref := def.AsRef()
+				chain = append(chain, ref.String())
+				if _, found := seen[ref.String()]; found {
+					cycle = strings.Join(chain, " -> ")
+					return
+				}
+				seen[ref.String()] = struct{}{}
+
+				referred, found := schemas.LocateObjectByRef(ref)
+				if !found {
+					return
+				}
+				def = referred.Type
+			}
+		})
+		if cycle != "" {
+			return cycle
+		}
+	}
+
+	return ""
 }
 
 func (schemas Schemas) LocateObject(pkg string, name string) (Object, bool) {
